@@ -219,6 +219,27 @@ def o_bit_tail(src, width, signed, data):
     return None
 
 
+@C.oracle('island')
+def o_island(src, data):
+    """a byte-level island whose size comes from an earlier bit field, in the MIDDLE of a bit region (the streamed path): it takes its own
+    bytes and leaves the bits behind it to the members that follow.  Layout: n:4 p:4 | n bytes | t:8 | the remaining octets"""
+    c = C.get(src)
+    n, pp = data[0] >> 4, data[0] & 15
+    if len(data) < 2 + n:
+        return None
+    want = dict(n=n, p=pp, d=data[1:1 + n], t=data[1 + n], r=list(data[2 + n:]))
+    p = res(lambda: c.parse(data))
+    if p[0] != 'ok':
+        return 'parse(%r) raised %r; the layout gives %r' % (data, p[1:], want)
+    got = dict(n=p[1].n, p=p[1].p, d=bytes(p[1].d), t=p[1].t, r=list(p[1].r))
+    if got != want:
+        return 'parse(%r) = %r; the layout gives %r' % (data, got, want)
+    b = res(lambda: c.build(want))
+    if b != ('ok', data):
+        return 'build gave %r, expected %r' % (b, data)
+    return None
+
+
 def run(tier, seed):
     acc = C.Acc('C10', tier, seed)
     rng = C.rng_for(seed, 'C10')
@@ -255,6 +276,16 @@ def run(tier, seed):
             if s_ and a >= 1 << (k - 1):
                 a -= 1 << k
             cases.append(dict(src=src, op='build', obj=dict(a=a, rest=bytes(int(c) for c in bits[k:]))))
+    # byte-level islands of variable size in the middle of a bit region
+    for isl in ('Bytewise(Bytes(this.n))', 'Bytewise(FixedSized(this.n, GreedyBytes))', 'Bytewise(Array(this.n, Byte))'):
+        src = 'Bitwise(Struct("n"/Nibble, "p"/Nibble, "d"/%s, "t"/Octet, "r"/GreedyRange(Octet)))' % isl
+        for n_ in (0, 1, 2, 3):
+            for _ in range(2 if tier == 'quick' else 8):
+                d = bytes([(n_ << 4) | rng.randrange(16)]) + G.rand_bytes(rng, n_) + G.rand_bytes(rng, 1 + rng.randint(0, 3))
+                if 'Array' not in isl:
+                    acc.check('island', src, data=d)
+                cases.append(dict(src=src, op='parse', data=d))
+                cases.append(dict(src=src, op='parse', data=d[:-1]))
     # exhaustive: every value of every region of <= 16 bits made of two or three integer fields
     widths = [(a, b) for a in range(1, 16) for b in range(1, 16) if (a + b) in (8, 16)]
     if tier == 'quick':
